@@ -1067,12 +1067,13 @@ func runC21Case(t testing.TB, r *kit.Run, idx int, seed [2]uint64) c20Result {
 
 func TestC21(t *testing.T) {
 	r := kit.Start(t, "C21", "exploration")
-	r.Rule("case = VM config (caches in {1,2,4,128}, async accept lag bound in {0,1,3}), VM started without state (70%) or with state and 0..3 normally executed blocks (30%), StartStateSync at the last accepted block or at a block 1..5 heights ahead, 4..39 vacuous engine actions (parse+verify valid/invalid blocks on processing/last-accepted parents, re-parse, set preference, accept 1..3 valid blocks with transitive rejection), FinishStateSync at a target anywhere between the start and the tip - from the engine thread, or (35%) concurrently with the rejections that follow an accept, run inside a uniformly chosen chain callback of the finish (or unsynchronised), or (~20%) overlapped by the engine's Verify of a new valid/invalid block (child of the tip or of a processing block) called from the engine thread while the finish sits in a uniformly chosen chain callback on the syncer's goroutine - then 0..24 normal engine actions and (80%) consensus deciding every invalid processing block. In every mode a health probe (HealthCheck from a second goroutine) is issued at the start of every chain callback FinishStateSync makes on its own goroutine (2 per reprocessed block, 1 per re-verified block). " +
+	r.Rule("case = VM config (caches in {1,2,4,128}, async accept lag bound in {0,1,3}), VM started without state (70%) or with state and 0..3 normally executed blocks (30%), StartStateSync at the last accepted block or at a block 1..5 heights ahead, 4..39 vacuous engine actions (parse+verify valid/invalid blocks on processing/last-accepted parents, re-parse, set preference, accept 1..3 valid blocks with transitive rejection), FinishStateSync at a target anywhere between the start and the tip - from the engine thread (in half of these cases right in the middle of the transitive rejections of an accept: the engine builds conflicting subtrees P->C(->D) under the tip, accepts a sibling x, delivers only a prefix of the rejections it owes, parents first, calls FinishStateSync itself and delivers the remaining rejections afterwards, health judged after the finish and after every late rejection), or (35%) concurrently with the rejections that follow an accept, run inside a uniformly chosen chain callback of the finish (or unsynchronised), or (~20%) overlapped by the engine's Verify of a new valid/invalid block (child of the tip or of a processing block) called from the engine thread while the finish sits in a uniformly chosen chain callback on the syncer's goroutine - then 0..24 normal engine actions and (80%) consensus deciding every invalid processing block. In every mode a health probe (HealthCheck from a second goroutine) is issued at the start of every chain callback FinishStateSync makes on its own goroutine (2 per reprocessed block, 1 per re-verified block). " +
 		"Non-trivial = the finish reprocessed accepted blocks or re-verified / skipped processing blocks; distinct = (config, action kind sequence).")
 	r.Assume(
 		"the state of a block is modelled as the hash chain H(parent state || block id); the target's state handed to FinishStateSync is the one a node that executed the chain would have",
 		"consensus only accepts valid blocks and only issues snowman-consistent calls; Reject is not serialised with FinishStateSync (it does not take the chain lock; FinishStateSync is called from the syncer's goroutine in vm/statesync.go)",
 		"health: asserted unhealthy while a block that itself failed re-verification is undecided, asserted healthy once every block that failed or was skipped because of a failed ancestor is rejected; not asserted in between and not asserted during the sync (counted)",
+		"a block that is still processing at FinishStateSync while the engine has already rejected its parent (finish between the transitive rejections of an accept, all on the engine thread) has no parent to be re-verified on, i.e. it failed re-verification: unhealthy is asserted until the engine rejects it (key health-healthy-with-orphaned-processing); its own descendants are treated like descendants of failed blocks (not asserted unhealthy, must be rejected before healthy is asserted)",
 		"health during the hand-over: while FinishStateSync has not returned and a processing block that will fail its own re-verification is undecided, a probe must not answer healthy; which checker reports unhealthy (not ready / unresolved blocks) is not judged, and nothing is asserted when only valid or skipped blocks are processing. A probe that does not return within 1 s (a HealthCheck that waits for the finish) stops the probing of that finish, without verdict",
 		"the order of re-verification is only constrained by parents-before-children (the parent output must exist); height inversions are counted, not judged",
 		"quiescence point = VM.Shutdown (waits for the async accepter)",
